@@ -120,7 +120,18 @@ void h_score(void) {
     END();
 }
 
-// ---- O3: torn reads.  Every slot may show word0 of one stored unit and word1 of another.
+// ---- O3: torn reads.  Every relaxed atomic load of a slot word is its own event: it may observe the word of the older
+// unit (a) or of the newer unit (b) stored in that slot, subject to read-read coherence per location (a later load of the
+// same word never goes back from b to a).  A reader that loads a word twice can therefore see two different stores.
+static bool tornMode; static U64 candOld[2 * NSLOT], candNew[2 * NSLOT]; static int seenNew[2 * NSLOT];   // indexed by word number = 2*slot + word
+extern "C" U64 verif_atomic_load64(const U64* p) {
+    if (!tornMode) return *p;
+    long off = p - reinterpret_cast<const U64*>(slotArr);        // all loads in torn mode are loads of table slots
+    int pick = nondet_bool() ? 1 : 0;
+    if (pick < seenNew[off]) pick = seenNew[off];
+    seenNew[off] = pick;
+    return pick ? candNew[off] : candOld[off];
+}
 static U64 dataNoGen(U64 d) { return d & ~(0xfULL << 42); }
 void h_torn(void) {
     TT& tt = rawTT();
@@ -131,20 +142,21 @@ void h_torn(void) {
     U64 Kc = K ^ tt.contemptHash;
     size_t idx0 = tt.getIndex(Kc);
     U64 ka[4], da[4], kb[4], db[4];
+    for (int i = 0; i < 2 * NSLOT; i++) { candOld[i] = candNew[i] = 0; seenNew[i] = 0; }
     for (int s = 0; s < 4; s++) {
         ka[s] = nondet_u64(); da[s] = nondet_u64(); kb[s] = nondet_u64(); db[s] = nondet_u64();
-        if (nondet_bool()) { kb[s] = ka[s]; db[s] = da[s]; }           // un-torn slot
-        TTES tmpA, tmpB;
-        TTEntry(ka[s], da[s]).store(tmpA);               // real store of unit a
-        TTEntry(kb[s], db[s]).store(tmpB);               // real store of unit b
-        // a reader may see word0 of a with word1 of b (relaxed atomics, two separate words)
-        setw0(idx0 + s, tmpA.key.load(std::memory_order_relaxed));
-        setw1(idx0 + s, tmpB.data.load(std::memory_order_relaxed));
-        // explicit assumption: no 2^-64 XOR coincidence between two units that are both for other keys
-        ASSUME(!(ka[s] != Kc && kb[s] != Kc && (ka[s] ^ da[s] ^ db[s]) == Kc));
+        if (nondet_bool()) { kb[s] = ka[s]; db[s] = da[s]; }           // slot written once only (un-torn)
+        TTEntry(ka[s], da[s]).store(slots()[idx0 + s]);  // real store of the older unit a into the slot
+        candOld[2 * (idx0 + s)] = w0(idx0 + s); candOld[2 * (idx0 + s) + 1] = w1(idx0 + s);
+        TTEntry(kb[s], db[s]).store(slots()[idx0 + s]);  // real store of the newer unit b over it
+        candNew[2 * (idx0 + s)] = w0(idx0 + s); candNew[2 * (idx0 + s) + 1] = w1(idx0 + s);
+        // explicit assumption: no 2^-64 XOR coincidence between units that are both stored for other keys
+        ASSUME(!(ka[s] != Kc && kb[s] != Kc && ((ka[s] ^ da[s] ^ db[s]) == Kc || (kb[s] ^ db[s] ^ da[s]) == Kc)));
     }
     TTEntry res;
+    tornMode = true;
     tt.probe(K, res);                                    // real
+    tornMode = false;
     verif_observe(res.getData());
     if (res.getType() != TType::T_EMPTY) {
         CHECK(res.getKey() == Kc, "hit returns the probed key");
@@ -156,12 +168,12 @@ void h_torn(void) {
         CHECK(unit, "hit returns data that was stored as one unit for this key");
         CHECK(res.getGeneration() == tt.generation, "generation refreshed");
     } else {
-        // a miss is only allowed when no un-torn unit for this key is present
-        // (the first slot whose decoded key matches is the one returned, whatever its type)
+        // a miss is only allowed when no un-torn unit for this key is visible before any other match
         bool present = false, earlier = false;
         for (int s = 0; s < 4; s++) {
-            if (!earlier && ka[s] == Kc && kb[s] == Kc && da[s] == db[s] && TTEntry(ka[s], da[s]).getType() != TType::T_EMPTY) present = true;
-            if ((ka[s] ^ da[s] ^ db[s]) == Kc) earlier = true;
+            bool single = ka[s] == kb[s] && da[s] == db[s];
+            if (!earlier && single && ka[s] == Kc && TTEntry(ka[s], da[s]).getType() != TType::T_EMPTY) present = true;
+            if (!single || ka[s] == Kc) earlier = true;       // a torn slot or a matching slot may end the scan first
         }
         CHECK(!present, "intact unit for the key is found");
     }
